@@ -39,6 +39,8 @@ func c14PathSets() []getReq {
 		{Label: "absent-entry", Paths: []Path{P("if", K{"name", "zz"})}},
 		{Label: "leaf-list", Paths: []Path{P("sys", "dns")}},
 		{Label: "presence", Paths: []Path{P("sys", "banner")}},
+		{Label: "below-and-above-presence", Paths: []Path{P("sys", "banner", "text"), P("sys")}},
+		{Label: "presence-and-below", Paths: []Path{P("sys", "banner"), P("sys", "banner", "text")}},
 		{Label: "unknown-path", Paths: []Path{P("nosuch")}, WantErr: true},
 		{Label: "unknown-child", Paths: []Path{P("sys", "nosuch")}, WantErr: true},
 		{Label: "known+unknown", Paths: []Path{P("sys"), P("nosuch")}, WantErr: true},
